@@ -164,6 +164,9 @@ where
 {
     let tx = safe_apply_args(tx, args)?;
 
+    // the first pass must not see the transaction a reused compiler evaluated last
+    compiler.reset();
+
     let max_optimize_rounds = max_optimize_rounds.max(3);
 
     let mut last_eval = None;
